@@ -1624,12 +1624,21 @@ func (e *ForExpr) Value(ctx *hcl.EvalContext) (cty.Value, hcl.Diagnostics) {
 			} else {
 				k := key.AsString()
 				if _, exists := vals[k]; exists {
+					// We don't know what any marks might represent at the
+					// calling application layer, so the key is only shown
+					// if neither it nor the collection it came from is marked.
+					keyDesc := fmt.Sprintf("the key %q", k)
+					for _, m := range marks {
+						if len(m) > 0 {
+							keyDesc = "the same key"
+						}
+					}
 					diags = append(diags, &hcl.Diagnostic{
 						Severity: hcl.DiagError,
 						Summary:  "Duplicate object key",
 						Detail: fmt.Sprintf(
-							"Two different items produced the key %q in this 'for' expression. If duplicates are expected, use the ellipsis (...) after the value expression to enable grouping by key.",
-							k,
+							"Two different items produced %s in this 'for' expression. If duplicates are expected, use the ellipsis (...) after the value expression to enable grouping by key.",
+							keyDesc,
 						),
 						Subject:     e.KeyExpr.Range().Ptr(),
 						Context:     &e.SrcRange,
